@@ -1562,6 +1562,60 @@ impl Monitors {
         for e in consistency_errors(core) {
             viol(out, step, "C05", "P4-inconsistent-structures", e);
         }
+        // C04 / A6: the allocations of the executions that are open at the same time on one
+        // worker (ground truth of the fake launcher: the allocation the worker handed to the
+        // launcher) are exclusive per index and within the size of sum resources; A3: every
+        // grant has the amount of the variant it was started with
+        {
+            let sh = sim.shared.borrow();
+            let inc = sh.incarnation;
+            let mut per_index: BTreeMap<(Wid, u32, u32), (u64, Vec<Tid>)> = BTreeMap::new();
+            let mut per_res: BTreeMap<(Wid, u32), u64> = BTreeMap::new();
+            let mut n_open = 0u64;
+            for e in sh.execs.iter().filter(|e| e.open && e.incarnation == inc) {
+                if !sim.workers.contains_key(&e.w) {
+                    continue;
+                }
+                n_open += 1;
+                for (rid, amount, indices) in &e.alloc.resources {
+                    *per_res.entry((e.w, *rid)).or_insert(0) += *amount;
+                    let mut total = 0u64;
+                    for (ix, _g, f) in indices {
+                        let a = if *f == 0 { 10_000 } else { *f as u64 };
+                        total += a;
+                        let ent = per_index.entry((e.w, *rid, *ix)).or_insert((0, vec![]));
+                        ent.0 += a;
+                        ent.1.push(e.t);
+                    }
+                    if !indices.is_empty() && total != *amount {
+                        viol(out, step, "C04", "A3-indices-do-not-sum-to-amount", format!("execution of {:?} on worker {}: resource {rid}: indices {indices:?} give {total}, amount {amount}", e.t, e.w));
+                    }
+                }
+            }
+            self.count("ledger.open_executions_checked", n_open);
+            for ((w, rid, ix), (held, tasks)) in &per_index {
+                if tasks.len() > 1 {
+                    self.count("ledger.index_shared_by_fractions", 1);
+                }
+                if *held > 10_000 {
+                    viol(out, step, "C04", "A6-index-held-beyond-capacity", format!("worker {w} resource {rid} index {ix}: concurrently open executions of {tasks:?} hold {held}/10000"));
+                }
+            }
+            for ((w, rid), held) in &per_res {
+                let size = sim.workers.get(w).and_then(|h| {
+                    let name = core.resource_names.get(*rid as usize)?;
+                    h.spec.resources.iter().find(|r| &r.name == name).map(|r| r.kind.size())
+                });
+                if let Some(size) = size {
+                    if *held > size {
+                        viol(out, step, "C04", "A6-resource-held-beyond-size", format!("worker {w} resource {rid}: concurrently open executions hold {held} of {size}"));
+                    }
+                    if *held == size && size > 0 {
+                        self.count("ledger.resource_fully_held", 1);
+                    }
+                }
+            }
+        }
         // P2 time: tasks placed by this scheduling round
         if let (Some(Action::Sched), Some(pc)) = (action, prev_core) {
             let vnow = sim.vnow_s();
